@@ -32,6 +32,9 @@ type Family struct {
 	OutcomeKey func(r *Result) string
 	// NoFatalShortcut: the family's own Check judges crashes/hangs (it wants to name the culprit input)
 	NoFatalShortcut bool
+	// NoSecondRun switches the non-initial-state differential off; SecondEvery is its stride (default 7)
+	NoSecondRun bool
+	SecondEvery int
 
 	mu    sync.Mutex
 	cache map[string][]Item
@@ -52,6 +55,13 @@ func (f *Family) items(tier string) []Item {
 }
 
 func (f *Family) Count(tier string) int { return len(f.items(tier)) }
+
+func (f *Family) secondEvery() int {
+	if f.SecondEvery > 0 {
+		return f.SecondEvery
+	}
+	return 7
+}
 
 func (f *Family) scns(it *Item) []*Scn {
 	s0 := it.Scn
@@ -126,6 +136,33 @@ func (f *Family) Run(tier string, idx int, r *core.ScnResult) {
 			r.DetEqual++
 		} else {
 			r.Infra = fmt.Sprintf("item %d (%s): two runs of the same schedule differ:\n%s\n---\n%s", idx, it.Class, a.Canon(), b.Canon())
+		}
+	}
+	// non-initial state: a rotating subset of the items is also executed as the SECOND run of the process (after a plain
+	// run of the same variant, so that allocators, reused buffers and leftovers of run 1 are in play) and must be judged
+	// the same and observe the same hops as when it runs first
+	if !f.NoSecondRun && len(it.Also) == 0 && len(it.Scn.Then) == 0 && idx%f.secondEvery() == 0 && r.Infra == "" && len(r.Failures) == 0 {
+		pre := Scn{Variant: it.Scn.Variant, First: 1, Last: 3, Dest: 2, TimeoutMs: 200, DelayMs: 10, IPIDBase: it.Scn.IPIDBase, EchoBase: it.Scn.EchoBase, Rand: it.Scn.Rand, FiltersOff: it.Scn.FiltersOff}
+		pre.Faults = nil
+		second := it.Scn
+		pre.Then = []Scn{second}
+		res := RunScns(vsched.Config{ClockDeviation: f.Clock}, &pre)
+		view := *res
+		view.Obs = res.Obs[1:]
+		first := f.runItem(it, nil, nil, false)
+		r.Branch("second-run-checked")
+		if len(it.Scn.Faults) == 0 {
+			if fi := Fatal(res); fi != nil && !f.NoFatalShortcut {
+				r.Fail(core.Failure{Key: f.ID + " " + it.Class + "/as-second-run/" + fi.Key, What: fi.Detail, Scenario: core.JSON(it)})
+			} else {
+				for _, is := range f.Check(it, &view) {
+					r.Fail(core.Failure{Key: f.ID + " " + it.Class + "/as-second-run/" + is.Key, What: is.Detail, Scenario: core.JSON(&Item{Scn: pre, Class: it.Class + "/as-second-run", Note: it.Note})})
+				}
+				a, b := HopsKey(Hops(first.Obs[0].Run)), HopsKey(Hops(view.Obs[0].Run))
+				if a != b || (first.Obs[0].Err != nil) != (view.Obs[0].Err != nil) {
+					r.Fail(core.Failure{Key: f.ID + " " + it.Class + "/as-second-run/differs-from-first-run", What: fmt.Sprintf("as first run: %s ; as second run: %s", a, b), Scenario: core.JSON(&Item{Scn: pre, Class: it.Class + "/as-second-run", Note: it.Note})})
+				}
+			}
 		}
 	}
 	if idx%211 == 0 {
